@@ -33,7 +33,8 @@ N_CFG = {"quick": 36, "thorough": 900}
 N_GEN = {"quick": 40, "thorough": 600}
 REQUIRE = {"paired_runs_same_process": 200, "paired_with_failures": 50, "paired_with_suspensions": 20,
            "paired_with_pool_level_ties": 10, "paired_with_simultaneous_suspension_ends": 5,
-           "cross_process_comparisons": 200, "workload_independence_checked": 200, "seed_pairs_checked": 200}
+           "cross_process_comparisons": 200, "workload_independence_checked": 200, "seed_pairs_checked": 200,
+           "paired_with_more_than_4096_exits_on_one_pool": 4}
 
 
 def cfg_list(tier, seed):
@@ -69,7 +70,8 @@ def cfg_list(tier, seed):
             # identical multi-operator pipelines: operator boundaries coincide, several suspensions end in one tick
             c = _sim.preemption_case(rng, algo="priority", oom=False, identical=True)
         elif i == 5:
-            c = _sim.scale_case(rng, "many-small", algo=rng.choice(["priority", "naive"]))
+            # > 4096 container exits on one pool in one run (naive starts one container per tick: too few)
+            c = _sim.scale_case(rng, "many-small", algo="priority")
             c["params"]["num_pools"] = 1
         elif i % 6 == 2:
             # overbook with exact score ties: identical pipelines start in the same tick on a pool they overflow together
@@ -212,8 +214,12 @@ def run_case(case, mon):
             other = dict(case["wparams"], random_seed=case["wparams"]["random_seed"] + 1 + rng.randint(0, 1000))
             d2, n2 = workload_digest(other, {}, case["ticks"])
             mon.count("seed_pairs_checked")
-            multi_choice = case["wparams"]["num_operators"] > 1 or len([x for x in (case["wparams"]["interactive_prob"], case["wparams"]["query_prob"], case["wparams"]["batch_prob"]) if x > 0]) > 1
-            if d2 == base and n >= 3:
+            multi_choice = (case["wparams"]["num_operators"] > 1 and case["wparams"]["query_prob"] < 1) or len([x for x in (case["wparams"]["interactive_prob"], case["wparams"]["query_prob"], case["wparams"]["batch_prob"]) if x > 0]) > 1
+            if not multi_choice:
+                # one priority class and single-operator pipelines: only the gaps are drawn, and for short means
+                # every draw truncates to the same tick count - equal workloads are then legitimate
+                mon.count("seed_pairs_without_random_content")
+            if d2 == base and n >= 3 and multi_choice:
                 mon.fail("seeds-give-same-workload", f"seeds {case['wparams']['random_seed']} and {other['random_seed']} generate the identical workload ({n} pipelines)")
             again, _ = workload_digest(case["wparams"], {}, case["ticks"])
             if again != base:
@@ -229,6 +235,12 @@ def run_case(case, mon):
         mon.count("second_run_positioned_at_id_rollover")
     lg2, h2, st2 = run_once(case)
     mon.count("paired_runs_same_process")
+    per_pool = {}
+    for ci in h1.conts.values():
+        if ci.status in ("ok", "failed"):
+            per_pool[ci.pool] = per_pool.get(ci.pool, 0) + 1
+    if per_pool and max(per_pool.values()) > 4096:
+        mon.count("paired_with_more_than_4096_exits_on_one_pool")
     if h1.n_failed:
         mon.count("paired_with_failures")
     if h1.n_suspended:
